@@ -48,12 +48,12 @@ ASSUMPTIONS = ['real-valued records (complex input to the Stockwell functions is
 MIN_EVALS = {'quick': {'invariant(values numeric ndarray, len==npts, time==dt*arange)': 20000, 'purity.args-unchanged': 15000,
                        'purity.repeatable': 2000, 'purity.earlier-result-unchanged-by-later-call': 10000, 'ownership.caller-array-unchanged': 2500,
                        'ownership.object-unaffected-by-caller-writes': 350, 'ownership.object-to-object': 150,
-                       'ownership.returned-signal-owns-its-data': 250, 'purity.repeatable-after-other-analysis-calls': 1800,
+                       'ownership.returned-signal-owns-its-data': 250, 'ownership.dt-kept-bit-for-bit': 250, 'purity.repeatable-after-other-analysis-calls': 1800,
                        'purity.signal-argument-observables-unchanged': 1800, 'purity.process-wide-numpy-state-restored': 15000},
              'thorough': {'invariant(values numeric ndarray, len==npts, time==dt*arange)': 500000, 'purity.args-unchanged': 300000,
                           'purity.repeatable': 50000, 'purity.earlier-result-unchanged-by-later-call': 200000, 'ownership.caller-array-unchanged': 60000,
                           'ownership.object-unaffected-by-caller-writes': 8000, 'ownership.object-to-object': 3500,
-                          'ownership.returned-signal-owns-its-data': 6000, 'purity.repeatable-after-other-analysis-calls': 45000,
+                          'ownership.returned-signal-owns-its-data': 6000, 'ownership.dt-kept-bit-for-bit': 5000, 'purity.repeatable-after-other-analysis-calls': 45000,
                           'purity.signal-argument-observables-unchanged': 45000, 'purity.process-wide-numpy-state-restored': 300000,
                           'testsuite-under-monitors.completed': 1}}
 CTX = None
@@ -739,6 +739,9 @@ def obs_all(obj):
     return H.observe(copy.deepcopy(obj), names)
 
 
+OWN_DTS = [1.0 / 256, 1.0 / 3, 1.0 / 120, 0.0078125, 1.0 / 7, 2.5, 1.0000001e-3, 0.1 + 0.2, 1e-7 * np.pi]
+
+
 def drive_ownership(ctx, eqsig, nh):
     rng = ctx.rng
     for h in range(nh):
@@ -748,21 +751,29 @@ def drive_ownership(ctx, eqsig, nh):
         via = ['ctor', 'reset'][int(rng.integers(2))]
         hist = [via + ':' + kind]
         CURRENT['history'] = hist
+        # the time step is the caller's too: steps that need more than a few decimals (1/256, 1/3, 1/120 ...) must be kept
+        # bit-for-bit (a constructor that "tidies" dt silently changes every integral computed from the object)
+        dt_own = float(OWN_DTS[int(rng.integers(len(OWN_DTS)))]) if rng.random() < 0.4 else H.DT
         try:
             if via == 'ctor':
-                obj = getattr(eqsig, cls_name)(A, H.DT)
+                obj = getattr(eqsig, cls_name)(A, dt_own)
             else:
-                obj = getattr(eqsig, cls_name)(np.linspace(0, 1, n + 3), H.DT)
+                obj = getattr(eqsig, cls_name)(np.linspace(0, 1, n + 3), dt_own)
                 obj.reset_values(A)
         except Exception as e:
             ctx.exception('ownership.caller-array-unchanged', {'kind': 'ownership', 'history': hist, 'container': kind}, e)
             continue
+        ctx.check(type(obj.dt) is float and obj.dt == dt_own or obj.dt == dt_own, 'ownership.dt-kept-bit-for-bit',
+                  lambda: {'kind': 'ownership-dt', 'class': cls_name, 'dt': dt_own, 'got': float(obj.dt)},
+                  '%s(values, dt=%r).dt is %r' % (cls_name, dt_own, obj.dt))
+        if dt_own != H.DT:
+            hist[0] += ':dt=%r' % dt_own
         before = csnap(A)
         L = int(rng.integers(3, 11))
         cur_n = n
         ops_done = []
         for k in range(L):
-            ops = H.op_list(cls_name, rng, cur_n)
+            ops = H.op_list(cls_name, rng, cur_n, dt=dt_own)
             op = ops[int(rng.integers(len(ops)))]
             if k == 0 and rng.random() < 0.6:       # make sure the in-place style mutators come first often
                 inplace = [o for o in ops if o[0] in ('rebase_displacement', 'set_zero_residual_velocity', 'set_zero_residual_displacement',
@@ -780,7 +791,7 @@ def drive_ownership(ctx, eqsig, nh):
                 ctx.observe('mutator-raised(%s):%s:%s' % (kind, op[0], type(e).__name__))
             okk = csnap(A) == before
             ctx.check(okk, 'ownership.caller-array-unchanged',
-                      lambda: {'kind': 'ownership', 'class': cls_name, 'via': via, 'container': kind, 'A': np.asarray(before[3] if False else A),
+                      lambda: {'kind': 'ownership', 'class': cls_name, 'via': via, 'container': kind, 'dt': dt_own, 'A': np.asarray(before[3] if False else A),
                                'ops': [[o[0], o[1]] for o in ops_done], 'history': list(hist)},
                       '%s built by %s from a %s container: the caller\'s container changed after %s' % (cls_name, via, kind, hist[-1]))
             if not okk:
@@ -944,14 +955,17 @@ def replay(w):
         if rc['kind'] == 'list':
             x = [float(v) for v in np.asarray(x)]
         replay_sequence(ctx, eqsig, x, rc['kind'], rc.get('sequence', []))
+    elif kind == 'ownership-dt':
+        obj = getattr(eqsig, w['class'])(np.array([0.0, 1.0, -1.0, 0.5]), w['dt'])
+        ctx.check(obj.dt == w['dt'], 'ownership.dt-kept-bit-for-bit', None, 'dt=%r stored as %r' % (w['dt'], obj.dt))
     elif kind == 'ownership':
         A = w['A']
         if w.get('container') == 'list':
             A = [float(v) for v in np.asarray(A)]
         if w['via'] == 'ctor':
-            obj = getattr(eqsig, w['class'])(A, H.DT)
+            obj = getattr(eqsig, w['class'])(A, w.get('dt', H.DT))
         else:
-            obj = getattr(eqsig, w['class'])(np.linspace(0, 1, len(A) + 3), H.DT)
+            obj = getattr(eqsig, w['class'])(np.linspace(0, 1, len(A) + 3), w.get('dt', H.DT))
             obj.reset_values(A)
         before = csnap(A)
         for name, kw in w.get('ops', []):
